@@ -25,6 +25,7 @@ import (
 	"encoding/json"
 	"errors"
 	"fmt"
+	"sort"
 	"strings"
 	"testing"
 
@@ -48,8 +49,10 @@ type srOp struct {
 type srCase struct {
 	Interval int32  `json:"interval"`
 	Start    int64  `json:"start"`
-	Cache    int    `json:"cache"` // 0 off, >0 capacity in bytes
-	Auto     int    `json:"auto"`  // WriteBufferConfig.MaxBatches (0 = flush only when told)
+	Cache    int    `json:"cache"`          // 0 off, >0 capacity in bytes
+	Auto     int    `json:"auto"`           // WriteBufferConfig.MaxBatches (0 = flush only when told)
+	Fam      bool   `json:"fam,omitempty"`  // keep a family of partitions / topics / namespaces whose names are prefixes of one another live on the same S3 client and cache
+	Part     int32  `json:"part,omitempty"` // fam: partition id of the log under test
 	Ops      []srOp `json:"ops"`
 }
 
@@ -58,6 +61,8 @@ type srS3 struct {
 	*MemoryS3Client
 	failSeg, failIdx bool
 	lastDl           int // 0 none, 1 range, 2 full
+	listPrefix       string
+	listKeys         []string // what the last ListSegments call returned
 }
 
 var errSrInjected = errors.New("injected upload failure")
@@ -73,6 +78,15 @@ func (s *srS3) UploadIndex(ctx context.Context, key string, body []byte) error {
 		return errSrInjected
 	}
 	return s.MemoryS3Client.UploadIndex(ctx, key, body)
+}
+func (s *srS3) ListSegments(ctx context.Context, prefix string) ([]S3Object, error) {
+	objs, err := s.MemoryS3Client.ListSegments(ctx, prefix)
+	s.listPrefix, s.listKeys = prefix, nil
+	for _, o := range objs {
+		s.listKeys = append(s.listKeys, o.Key)
+	}
+	sort.Strings(s.listKeys)
+	return objs, err
 }
 func (s *srS3) DownloadSegment(ctx context.Context, key string, rng *ByteRange) ([]byte, error) {
 	if rng != nil {
@@ -113,6 +127,11 @@ func srPayload(op srOp, markerXor byte) []byte {
 	put32(23, uint32(op.Lod))
 	put32(57, uint32(op.Count))
 	return d
+}
+
+type srID struct {
+	ns, topic string
+	part      int32
 }
 
 type srBatch struct {
@@ -193,19 +212,35 @@ func srRun(cs srCase) *srResult {
 		sc = cache.NewSegmentCache(cs.Cache)
 	}
 	startAt := cs.Start
-	mk := func(topic string, part int32) *PartitionLog {
-		return NewPartitionLog("ns", topic, part, startAt, s3, sc, PartitionLogConfig{
+	mk := func(id srID) *PartitionLog {
+		return NewPartitionLog(id.ns, id.topic, id.part, startAt, s3, sc, PartitionLogConfig{
 			Buffer:       WriteBufferConfig{MaxBytes: 1 << 30, MaxBatches: cs.Auto},
 			Segment:      SegmentWriterConfig{IndexIntervalMessages: cs.Interval},
 			CacheEnabled: cs.Cache > 0,
 		}, nil, nil, nil)
 	}
 	// the log under test is partition 1 so that a constant 0 / default partition in a key is visible
-	topics := []string{"orders", "orders", "orders2"}
-	parts := []int32{1, 0, 1}
-	logs := []*PartitionLog{mk("orders", 1), mk("orders", 0), mk("orders2", 1)}
+	ids := []srID{{"ns", "orders", 1}, {"ns", "orders", 0}, {"ns", "orders2", 1}}
+	if cs.Fam {
+		// partition ids that are decimal prefixes of one another, topic names and
+		// namespaces likewise; every log starts at the same offset, so base offsets coincide
+		ids = []srID{{"ns", "orders", cs.Part}}
+		for _, p := range []int32{0, 1, 2, 10, 11, 12, 13, 14, 15, 16, 17, 18, 19, 20, 21, 100} {
+			if p != cs.Part {
+				ids = append(ids, srID{"ns", "orders", p})
+			}
+		}
+		ids = append(ids, srID{"ns", "orders2", cs.Part}, srID{"ns", "order", cs.Part}, srID{"ns2", "orders", cs.Part}, srID{"n", "orders", cs.Part})
+	}
+	logs := make([]*PartitionLog, len(ids))
+	xors := make([]byte, len(ids))
+	for i, id := range ids {
+		logs[i] = mk(id)
+		if i > 0 {
+			xors[i] = byte(i*13 + 7)
+		}
+	}
 	storeCur, storePrev := cs.Start, cs.Start // what onFlush would have published for the log under test
-	xors := []byte{0, 0x5a, 0xa5}
 	arts := make([]*SegmentArtifact, len(logs))
 	main := logs[0]
 
@@ -274,11 +309,14 @@ func srRun(cs srCase) *srResult {
 		}
 	}
 
-	for _, op := range cs.Ops {
+	for opIdx, op := range cs.Ops {
 		switch op.K {
 		case "append":
 			_, segsBefore, _, _ := state()
 			for i, l := range logs {
+				if cs.Fam && i > 0 && (opIdx*7+i*3)%4 == 0 {
+					continue // the other logs of the family hold different volumes
+				}
 				p := srPayload(op, xors[i])
 				b, err := NewRecordBatchFromBytes(p)
 				if err != nil {
@@ -394,6 +432,8 @@ func srRun(cs srCase) *srResult {
 				sn = storeCur + 2
 			}
 			failed := false
+			var mainPrefix string
+			var mainKeys []string
 			for i := range logs {
 				startAt = sn
 				if i > 0 { // the mirrored logs restart from their own last committed offset
@@ -404,8 +444,12 @@ func srRun(cs srCase) *srResult {
 					}
 					logs[i].mu.Unlock()
 				}
-				nl := mk(topics[i], parts[i])
-				if _, err := nl.RestoreFromS3(ctx); err != nil {
+				nl := mk(ids[i])
+				_, err := nl.RestoreFromS3(ctx)
+				if i == 0 {
+					mainPrefix, mainKeys = s3.listPrefix, s3.listKeys
+				}
+				if err != nil {
 					failed = i == 0
 					if i == 0 {
 						break
@@ -433,7 +477,20 @@ func srRun(cs srCase) *srResult {
 				}
 				next := main.nextOffset
 				main.mu.Unlock()
-				res.steps = append(res.steps, fmt.Sprintf("SRestart %s %s %s", cqZ(sn), cqZ(next), cqList(items)))
+				strs := func(v []string) string {
+					out := make([]string, len(v))
+					for i, k := range v {
+						out[i] = cqStr(k)
+					}
+					return cqList(out)
+				}
+				var all []string
+				for k := range s3.MemoryS3Client.data {
+					all = append(all, k)
+				}
+				sort.Strings(all)
+				res.steps = append(res.steps, fmt.Sprintf("SRestart %s %s %s %s %s %d %s %s %s", cqZ(sn), cqZ(next), cqList(items),
+					cqStr(ids[0].ns), cqStr(ids[0].topic), ids[0].part, cqStr(mainPrefix), strs(mainKeys), strs(all)))
 			}
 			res.tags["restart"] = true
 		case "read":
@@ -806,6 +863,41 @@ func srGen(r *vRand, focus string) srCase {
 	return cs
 }
 
+// srGenFam: several flushed segments in a family of logs whose partition ids / topic
+// names / namespaces are prefixes of one another, a restart of all of them from S3,
+// then a Read at every offset of the log under test.
+func srGenFam(r *vRand) srCase {
+	cs := srCase{Fam: true, Interval: []int32{1, 3, 100}[r.Intn(3)], Part: []int32{1, 2, 10, 12, 19, 20, 1, 2}[r.Intn(8)]}
+	if r.Bool() {
+		cs.Cache = 1 << 20
+	}
+	next := int64(0)
+	var sizes []int
+	rounds := r.Range(2, 4)
+	for k := 0; k < rounds; k++ {
+		for j := r.Range(1, 3); j > 0; j-- {
+			op := srOp{K: "append", Len: r.Range(61, 80), Marker: byte(r.Intn(256)), Lod: int32(r.Intn(3))}
+			op.Count = op.Lod + 1
+			cs.Ops = append(cs.Ops, op)
+			sizes = append(sizes, op.Len)
+			next += int64(op.Lod) + 1
+		}
+		cs.Ops = append(cs.Ops, srOp{K: "flush"})
+	}
+	if r.Chance(30) {
+		cs.Ops = append(cs.Ops, srOp{K: "append", Len: 70, Count: 1, Marker: 3})
+	}
+	cs.Ops = append(cs.Ops, srOp{K: "restart", Fresh: r.Bool()})
+	for o := int64(0); o <= next; o++ {
+		mx := int32(1 << 20)
+		if r.Chance(30) {
+			mx = int32(sizes[r.Intn(len(sizes))] + r.Range(-1, 1))
+		}
+		cs.Ops = append(cs.Ops, srOp{K: "read", Off: o, Max: mx})
+	}
+	return cs
+}
+
 func srCoq(cs srCase, res *srResult) string {
 	return fmt.Sprintf("mkCase %s %s %s %s %s", cqZ(int64(cs.Interval)), cqBool(res.requeue), cqBool(srExt()), cqZ(cs.Start), cqList(res.steps))
 }
@@ -849,6 +941,11 @@ func srCorpus() []srCase {
 		// restart from a store that is ahead of S3: gap between the last segment and the new batches
 		srCase{Interval: 3, Ops: cat(srApp(3, 0, 70, 1), one("flush"), []srOp{{K: "restart", Store: 3}}, srApp(2, 0, 70, 5), rd(3, 10), rd(4, 10), rd(5, 100), one("flush"), rd(3, 10), rd(2, 200))},
 	)
+	cases = append(cases,
+		// partitions 1 and 10..19 (etc.) on one S3 client, everything rebuilt from S3, every offset read
+		srCase{Fam: true, Part: 1, Interval: 1, Ops: cat(srApp(2, 0, 70, 1), one("flush"), srApp(3, 1, 64, 9), one("flush"), srApp(1, 0, 70, 3), one("flush"), []srOp{{K: "restart", Fresh: true}},
+			rd(0, 1<<20), rd(1, 1<<20), rd(2, 1<<20), rd(3, 64), rd(4, 1<<20), rd(5, 1<<20), rd(6, 1<<20), rd(7, 1<<20), rd(8, 1<<20), rd(9, 1))},
+	)
 	if vTier() == "thorough" {
 		// the design-round probe: 120 one-record batches, interval 100, Read(99, 1024)
 		cases = append(cases, srCase{Interval: 100, Ops: cat(srApp(120, 0, 70, 0), one("flush"), rd(99, 1024), rd(100, 1024), rd(119, 1))})
@@ -884,7 +981,7 @@ func srTest(t *testing.T, prop string) {
 			seen[f.key] = true
 			key := f.key
 			has := func(ops []srOp) (bool, string) {
-				for _, g := range failuresOf(srRun(srCase{Interval: cs.Interval, Start: cs.Start, Cache: cs.Cache, Auto: cs.Auto, Ops: ops})) {
+				for _, g := range failuresOf(srRun(srCase{Interval: cs.Interval, Start: cs.Start, Cache: cs.Cache, Auto: cs.Auto, Fam: cs.Fam, Part: cs.Part, Ops: ops})) {
 					if g.key == key {
 						return true, g.what
 					}
@@ -924,6 +1021,9 @@ func srTest(t *testing.T, prop string) {
 		n := vN(150, 1500)
 		for i := 0; i < n; i++ {
 			runOne(srGen(r.Fork(), prop))
+		}
+		for i, nf := 0, vN(14, 150); i < nf; i++ {
+			runOne(srGenFam(r.Fork()))
 		}
 	}
 	// several files so that the Coq side evaluates them in parallel
